@@ -209,6 +209,17 @@ Theorem guarded_content_confined_changing_files :
               sfilter parse_ims prime override refuses vary_tuple vary_header clear_alias ([], tt) now wops).
 Proof. exact guarded_content_confined_changing_lemma. Qed.
 
+(** the step of [handle_vary_missing] itself, for an [allow-ips] file: whatever item (of whatever earlier world) the lookup found
+    under whatever key, the answer computed now — for a listed or an unlisted client — is not pushed into it *)
+Theorem allow_ips_variant_never_pushed :
+  forall (fix_errline cors : bool) (fs : bytes -> option bytes) (errpage : N -> bytes) (tmpl : list bytes -> bytes -> bytes)
+         cache_on ims_on fix_svary fix_qmkey sfilter refuses vary_tuple vary_header c1 now r ov k e t c,
+    served_file (rq_path r) = Ok (Some t) -> fs t = Some c -> is_hidden t c = false -> is_allow_ips c = true ->
+    get_or_head (rq_method r) = true -> (cors && is_cors_fail ov) = false ->
+    fst (fst (vary_missingX unit (compute_g true true fix_errline cors fs errpage tmpl) cache_on ims_on true fix_svary fix_qmkey sfilter
+                            (negotiate_g errpage refuses) vary_tuple vary_header c1 tt now r ov true k e)) = (c1, tt).
+Proof. exact allow_ips_variant_never_pushed_lemma. Qed.
+
 (** ... which extends the histories with fixed files: a history whose world never changes is a history of [run_g] *)
 Theorem changing_files_extends_fixed_files :
   forall fix_ext fix_lock fix_errline cors fs errpage tmpl cache_on ims_on fix_ovkey fix_clear fix_svary fix_qmkey fix_ims
